@@ -45,7 +45,7 @@ def body(chk: core.Check):
         chk, g, hm.C18_FUNCS, "populate", timeout,
         canaries=[("uuid-always", "uuid_create_book", "request_id populated even when the caller set it (in-memory mutant)")])
     # (1) validation
-    parts = [{"VERIF_PART": str(i)} for i in range(4)]
+    parts = [{"VERIF_PART": str(i)} for i in range(5)]
     nmax = "2" if quick else "3"
     chk.bound("settings_entries", int(nmax))
     chk.stubs.append("yaml.dump (error text rendering inside the validator) replaced by a constant-time stub")
